@@ -127,6 +127,8 @@ def run(tier):
     rule_R7(res, prog)
     rule_R8(res, prog)
     rule_R9(res, prog)
+    rule_R10(res, prog)
+    rule_R11(res, prog)
     return res.finish()
 
 
@@ -670,3 +672,176 @@ def rule_R9(res, prog):
                                  fn.relfile, ln, fn.name, var, bad[1], bad[0], [p_[1] for p_ in bad[2][-6:]]), file=fn.relfile, line=ln)
             res.instance(rid, "%s:%s negative result of matrixValidateCertsExt becomes an alert" % (fn.name, ln), bad is None, finding=f_)
     res.floor(rid, 2)
+
+
+def rule_R10(res, prog):
+    """'every validation failure (.. name) is fatal': the expected-name comparison in matrixValidateCertsExt formats an
+    iPAddress SAN into a local text buffer and compares that text with the expected name.  A bounded formatting call that
+    is given less room than the longest value of its format silently truncates, and the truncated text of one address is
+    the full text of another (192.168.100.123 -> 192.168.100.12).  For every snprintf into a local array in the validator:
+    the size argument is the array's size, and the longest output of the format (every %u of an unsigned char argument is
+    three characters) fits with its terminator."""
+    import re
+    from sa import cfgutil as cu
+    rid = "C04.R10"
+    res.rule(rid, "certificate name text is never truncated before it is compared (formatting bound = buffer size >= longest value)")
+    for fn in prog.by_name.get("matrixValidateCertsExt", []):
+        for b in fn.blocks:
+            for i, ln, x in cu.block_exprs(b):
+                for m in walk(x):
+                    if m.get("k") != "call" or m.get("fn") not in ("snprintf", "Snprintf", "__builtin___snprintf_chk"):
+                        continue
+                    a = m.get("a", [])
+                    dst = strip(a[0]) if a else None
+                    while dst is not None and dst.get("k") == "cast":
+                        dst = strip(dst["e"])
+                    if dst is None or dst.get("k") != "var":
+                        continue
+                    mt = re.match(r"^(?:unsigned |signed )?char\[(\d+)\]$", dst.get("t", ""))
+                    if not mt:
+                        continue
+                    cap = int(mt.group(1))
+                    off = 2 if m["fn"].startswith("__builtin") else 0
+                    size = strip(a[1]) if len(a) > 1 else None
+                    fmt = None
+                    fi = 2 + off
+                    for q in walk(a[fi]) if len(a) > fi else ():
+                        if q.get("k") == "str":
+                            fmt = q["v"]
+                    ok = size is not None and size.get("k") == "int" and size["v"] == cap
+                    why = "" if ok else "the size argument %s is not the size of `%s` (%d)" % (cu.ftext(size) if size else "?", dst["n"], cap)
+                    if ok and fmt is not None:
+                        need, args, decidable = 0, a[fi + 1:], True
+                        parts = re.split(r"(%[a-z]+)", fmt)
+                        ai = 0
+                        for part in parts:
+                            if part.startswith("%"):
+                                arg = args[ai] if ai < len(args) else None
+                                ai += 1
+                                if part == "%u" and arg is not None and any(q.get("k") == "cast" and q.get("t") == "unsigned char" for q in walk(arg)):
+                                    need += 3
+                                else:
+                                    decidable = False
+                            else:
+                                need += len(part)
+                        if decidable and need + 1 > cap:
+                            ok = False
+                            why = "the longest output of \"%s\" is %d characters, `%s` holds %d with the terminator" % (fmt, need, dst["n"], cap - 1)
+                    f_ = None
+                    if not ok:
+                        f_ = Finding(PROP, rid, fn.name, "certificate name text truncated before the comparison",
+                                     "%s:%s %s(): %s: the formatted SAN is cut short and then compared with the expected name, so a "
+                                     "certificate issued for one address (192.168.100.123) authenticates another (192.168.100.12) and not its own" % (
+                                         fn.relfile, ln, fn.name, why), file=fn.relfile, line=ln)
+                    res.instance(rid, "%s:%s snprintf(%s, ..) bound equals the buffer and fits the format" % (fn.name, ln, dst["n"]), ok, finding=f_)
+    res.floor(rid, 1)
+
+
+def rule_R11(res, prog):
+    """'the application's certificate callback explicitly accepted that specific failure': the callback is handed ONE alert
+    for the whole chain.  certificate_expired is the failure an application is most likely to tolerate, so it may be the
+    alert presented only when nothing else failed: in each verdict-to-alert loop (a) no path leads from a store of another
+    alert to the store of certificate_expired (it never replaces / hides one), and (b) the scan goes on after
+    certificate_expired was stored - some store of another alert stays reachable from it (with ssl->err followed as a
+    constant through the loop's exit test)."""
+    from sa import cfgutil as cu
+    rid = "C04.R11"
+    res.rule(rid, "certificate_expired never hides another chain failure from the callback (TLS <=1.2 and 1.3 verdict loops)")
+    NONE_ = prog.const("SSL_ALERT_NONE")
+    EXP = prog.const("SSL_ALERT_CERTIFICATE_EXPIRED")
+    cg11 = load_cg(prog)
+
+    def kills_in(fn):
+        def k(call):
+            if not call.get("fn"):
+                return True
+            tq = prog.resolve_call(fn, call["fn"])
+            if tq is None:
+                return False            # library / builtin without a body: cannot reach the session structure's alert
+            return any(w[0] == "F" and w[2] == "err" for w in cg11.writes.get(tq.qname, ()))
+        return k
+    n = 0
+    for fn in sorted(prog.functions.values(), key=lambda f: f.qname):
+        if not fn.blocks or not fn.relfile.startswith("matrixssl/") or "/test/" in fn.relfile:
+            continue
+        stores = []
+        for b in fn.blocks:
+            for i, ln, x in cu.block_exprs(b):
+                for m in walk(x):
+                    if m.get("k") == "bin" and m["op"] == "=":
+                        lt, rt = strip(m["l"]), strip(m["r"])
+                        if lt is not None and lt.get("k") == "mem" and cu.ftext(lt) == "ssl->err" and rt is not None and rt.get("k") == "int":
+                            stores.append((b["id"], ln, rt["v"], x))
+        exp = [s for s in stores if s[2] == EXP]
+        if not exp:
+            continue
+        others = [s for s in stores if s[2] not in (EXP, NONE_)]
+
+        def is_store(vals):
+            def t(x):
+                for m in walk(x):
+                    if m.get("k") == "bin" and m["op"] == "=":
+                        lt, rt = strip(m["l"]), strip(m["r"])
+                        if lt is not None and lt.get("k") == "mem" and cu.ftext(lt) == "ssl->err" and rt is not None and rt.get("k") == "int" and vals(rt["v"]):
+                            return True
+                return False
+            return t
+        for (ebid, eln, _, _x) in exp:
+            n += 1
+            # (a) no other alert is replaced by the expiry
+            worst = None
+            for (obid, oln, ov, ox) in others:
+                # start after the store: successors of the store's block with ssl->err = ov
+                for sc in fn.bmap[obid]["succ"]:
+                    if sc.get("b") is None:
+                        continue
+                    p = cu.escapes_const(fn, sc["b"], lambda x: False, target_expr=is_store(lambda v: v == EXP),
+                                         init_env={"ssl->err": ov}, track_mem=("ssl->err",), call_kills=kills_in(fn))
+                    if p is not None:
+                        worst = (oln, ov, p)
+                        break
+                if worst:
+                    break
+            f_ = None
+            if worst is not None:
+                f_ = Finding(PROP, rid, fn.name, "certificate_expired replaces another alert of the chain",
+                             "%s:%s %s(): the alert %d stored at line %s can be followed by the store ssl->err = certificate_expired at line %s "
+                             "(via lines %s): a callback that tolerates an expired certificate and nothing else is shown `expired` for a chain "
+                             "that also failed otherwise (badly signed leaf under an expired intermediate) and accepts it" % (
+                                 fn.relfile, eln, fn.name, worst[1], worst[0], eln, [q[1] for q in worst[2][-6:]]), file=fn.relfile, line=eln)
+            res.instance(rid, "%s:%s certificate_expired never overwrites another alert" % (fn.name, eln), worst is None, finding=f_)
+            # (b) the scan goes on after an expiry: every other alert store of the same loop stays reachable
+            def cfg_reach(src):
+                seen_, st = set(), [src]
+                while st:
+                    q = st.pop()
+                    for sc in fn.bmap[q]["succ"]:
+                        if sc.get("b") is not None and sc["b"] not in seen_:
+                            seen_.add(sc["b"])
+                            st.append(sc["b"])
+                return seen_
+            from_exp = cfg_reach(ebid)
+            inloop = [o for o in others if o[0] in from_exp and ebid in cfg_reach(o[0])]
+            lost = []
+            for (obid, oln, ov, ox) in inloop:
+                reach = None
+                for sc in fn.bmap[ebid]["succ"]:
+                    if sc.get("b") is None:
+                        continue
+                    reach = cu.escapes_const(fn, sc["b"], lambda x: False,
+                                             target_expr=lambda x, ox=ox: x is ox,
+                                             init_env={"ssl->err": EXP}, track_mem=("ssl->err",), call_kills=kills_in(fn))
+                    if reach is not None:
+                        break
+                if reach is None:
+                    lost.append((oln, ov))
+            f_ = None
+            if lost or not inloop:
+                f_ = Finding(PROP, rid, fn.name, "the chain scan stops at certificate_expired",
+                             "%s:%s %s(): once ssl->err = certificate_expired is stored at line %s the verdict stores %s of the same loop are no "
+                             "longer reachable (the loop's exit test leaves on any alert): an expired leaf under an unknown root is presented "
+                             "to the callback as `expired` only, and a callback tolerating just that accepts an unanchored chain" % (
+                                 fn.relfile, eln, fn.name, eln, ["line %s (alert %d)" % l_ for l_ in lost[:6]]), file=fn.relfile, line=eln)
+            res.instance(rid, "%s:%s the verdict scan continues past certificate_expired (%d verdict stores stay reachable)" % (
+                fn.name, eln, len(inloop) - len(lost)), not (lost or not inloop), finding=f_)
+    res.floor(rid, 4)
